@@ -5,7 +5,7 @@ PROP = dict(
         ns='IcyVerif.C19',
         theorems=['crc16_table_entries', 'crc32_table_entries', 'update_crc16_is_bitwise',
                   'update_crc32_is_bitwise', 'get_crc16_eq', 'incremental_crc16', 'get_crc32_eq',
-                  'incremental_crc32'],
+                  'incremental_crc32', 'source_skeleton_unchanged'],
         harness='c19',
         design='DESIGN.md §4 C19',
         technique='Lean 4 proof (induction over byte strings + XOR-linearity of the shift register; '
